@@ -181,6 +181,29 @@ def gen_multipitch(rng, shape):
         ef = [frame(rng.randint(0, 3)) for _ in range(m)]
     if shape == "duplicates":
         rf = [np.array([440.0, 440.0]) for _ in rf]
+    if shape in ("crowded", "crowded_ref"):
+        # several pitches of one side inside the window of a SINGLE pitch of the other side (a matching may use it once)
+        te = t.copy()
+        rf, ef = [], []
+        flip = shape == "crowded_ref"           # one orientation per annotation pair, so that totals cannot cancel across frames
+        for _ in range(n):
+            c = 110.0 * 2 ** (rng.randint(0, 36) / 12.0)
+            one = np.array([c] if rng.random() < 0.7 else [c, c * 2 ** (7 / 12.0)])
+            many = np.array(sorted(c * 2 ** (u / 1200.0) for u in rng.sample([-40, -25, -10, 0, 10, 20, 35, 45], rng.randint(2, 3))))
+            a_, b_ = (many, one) if flip else (one, many)
+            rf.append(a_); ef.append(b_)
+    if shape == "octaves":
+        # a pitch together with its exact octave(s) in one frame, in the reference AND in the estimate: the
+        # chroma-folded frame then holds one pitch class several times (seeded change C07r6-B)
+        def oct_frame():
+            base = 110.0 * 2 ** (rng.randint(0, 11) / 12.0)
+            fr = [base * 2 ** o for o in sorted(rng.sample([0, 1, 2, 3], rng.randint(2, 3)))]
+            if rng.random() < 0.5:
+                fr.append(base * 2 ** (rng.choice([3, 4, 7]) / 12.0))
+            return np.array(sorted(fr))
+        rf = [oct_frame() for _ in range(n)]
+        te = t.copy()
+        ef = [f.copy() if rng.random() < 0.7 else f[:-1].copy() for f in rf]
     return t, rf, te, ef
 
 
@@ -398,7 +421,7 @@ def catalogue(me):
     mp = me.multipitch
     T["multipitch"] = Task("multipitch", gen_multipitch, [
         ("multipitch.metrics", mp.metrics, ident, [{}, {"window": 0.25}, {"window": 1.0}]),
-    ], kw_pool={"window": 0.25})
+    ], kw_pool={"window": 0.25}, shapes=["crowded", "crowded_ref", "octaves"] + SHAPES)
     tr = me.transcription
     ivs = lambda a: (a[0], a[2])  # noqa
     T["transcription"] = Task("transcription", gen_notes, [
